@@ -149,6 +149,7 @@ func ReadPBFWithOptions(r io.Reader, emit EmitWithGoroutine, options ReadOptions
 		wg.Done()
 	}()
 	var readOSMDataErr error
+	var readOSMDataErrLock sync.Mutex
 	for i := 0; i < cores; i++ {
 		go func(goroutine int) {
 			defer wg.Done()
@@ -162,7 +163,11 @@ func ReadPBFWithOptions(r io.Reader, emit EmitWithGoroutine, options ReadOptions
 				case b := <-c:
 					if b.Type == blobTypeOSMData {
 						if err := readOSMDataBlob(b, f, options); err != nil {
-							readOSMDataErr = err
+							readOSMDataErrLock.Lock()
+							if readOSMDataErr == nil {
+								readOSMDataErr = err
+							}
+							readOSMDataErrLock.Unlock()
 							cancel()
 						}
 					} else if b.Type == blobTypeDone {
